@@ -320,6 +320,7 @@ type VerifFullConfig struct {
 	Key      *ecdsa.PrivateKey // the single validator
 	Funded   []common.Address  // accounts with a large balance
 	Archive  bool              // TrieDirtyDisabled: flush state every block
+	Snapshot bool              // SnapshotLimit > 0 (the production default), construction awaited on start-up
 	DB       *VerifRecDB
 	WalDir   string // directory; the WAL file is <WalDir>/cs.wal/wal
 	WalImage []byte // if non-nil, written as the WAL file before opening it
@@ -402,6 +403,9 @@ func VerifBootFull(c VerifFullConfig) (n *VerifNode, err error) {
 		gen = VerifFullGenesis(addr, c.Funded)
 	}
 	cache := &blockchain.CacheConfig{TrieCleanLimit: 16, TrieDirtyLimit: 16, TrieDirtyDisabled: c.Archive, TrieTimeLimit: 5 * time.Minute}
+	if c.Snapshot {
+		cache.SnapshotLimit, cache.SnapshotWait = 16, true
+	}
 	bc, err := blockchain.NewBlockChain(c.DB, cache, gen)
 	if err != nil {
 		return nil, fmt.Errorf("NewBlockChain: %w", err)
